@@ -316,10 +316,19 @@ class Threadless(ABC, Generic[T]):
                 self.selector.unregister(fileno)
             self.registered_events_by_work_ids[work_id].clear()
             del self.registered_events_by_work_ids[work_id]
-        self.works[work_id].shutdown()
-        del self.works[work_id]
-        if self.work_queue_fileno() is not None:
-            os.close(work_id)
+        try:
+            self.works[work_id].shutdown()
+        except Exception as exc:
+            # A work failing to shut down cleanly must not
+            # take down the loop shared with other works.
+            logger.exception(
+                'Exception occurred during work#{0} shutdown'.format(work_id),
+                exc_info=exc,
+            )
+        finally:
+            del self.works[work_id]
+            if self.work_queue_fileno() is not None:
+                os.close(work_id)
 
     def _create_tasks(
             self,
